@@ -1,16 +1,775 @@
-import RzilVerif.Model.Compile
+import RzilVerif.Lemmas.StmtLemmas
 /-!
-# C05 — statements (first version; the full preservation theorem is being proved separately)
+  # C05 — the lowering of statements preserves C semantics
+
+  T1 (`Cfg.fixed`):
+  * `stmt_main` (induction on the C fuel: statements, statement lists, loops with any trip count),
+    `stmt_correct_fixed`, `stmts_correct_fixed`, `stmt_correct_fixed_rel`, `prog_correct_fixed`;
+    the expression theorem enters as the hypothesis `ExprOK ms WF` (see `Lemmas/StmtConv.lean`) and is
+    discharged in `Props/C05Compose.lean`.  All statement forms the model executes are covered:
+    declaration, simple/compound assignment to locals and registers, chained assignment, memory store,
+    `if`/`else`, `for` with step `v++` and `v += k`, `JUMP`, the skip statements
+    (`exprstmt`/`ret` are rejected by `execC`/`compileStmt` themselves).
+  * the static side conditions are the computable `Ctx.ok`, `WFStmt` (`Model/StmtWF.lean`); dropping
+    `WFStmt` is refuted: `stmt_correct_fixed_unrestricted_false` (`a = b += a`).
+  T2: `stmt_asCode_eq_fixed`, `stmts_asCode_eq_fixed`, `prog_asCode_eq_fixed`,
+      `prog_correct_asCode_on_carveout` (T1 + T2).
+  T3: `t3_compound_narrow_differs`, `t3_not_carved`.
+  Named facts: `mkSeq_exec` (in `Lemmas/StmtFuel.lean`), `if_exactly_one_arm`, `repeat_unfold`, `for_order`,
+      `for_iteration`, `assign_updates_only_target`, `assignC_updates_only_target`.
+  Non-vacuity: the `example`s at the end (all hypotheses of `prog_correct_fixed` and of T2 instantiated).
 -/
 namespace Rzil
+namespace C05
 
-/-- `Sequence` drops `EMPTY()` members. -/
-theorem mkSeq_nil : mkSeq [] = .empty := rfl
-theorem mkSeq_empty_only : mkSeq [.empty, .empty] = .empty := rfl
-theorem mkSeq_single (e : ILEffect) (h : e ≠ .empty) : mkSeq [e] = e := by
-  cases e <;> simp_all [mkSeq]
+section Main
+variable {ms : MacroSem} {WF : MState → CExpr → Prop} (hE : ExprOK ms WF)
+variable {c : Ctx} {env : CEnv} (henv : env.cfg = Cfg.fixed) (hc : c.ok = true)
+include hE henv hc
 
-/-- A compound assignment is the simple assignment of the operator applied to the target. -/
-theorem compound_is_assign_of_op (lhs e : CExpr) : compoundExpr lhs "+=" e = .bin "+" lhs e := rfl
+/-- what the proof needs to know about one loop iteration's effect `loopBody`: it runs the compiled body
+    `bs`, then a step effect `stepE` that increments the loop variable as the C loop does -/
+structure LoopShape (ms : MacroSem) (c : Ctx) (v : String) (step : Nat) (bs : List ILEffect) (stepE loopBody : ILEffect) : Prop where
+  body : ∀ σ σ1 σ2, ExecSeqIL ms bs σ σ1 → ExecIL ms stepE σ1 σ2 → ExecIL ms loopBody σ σ2
+  step : ∀ σC σIL w (x : BitVec w), Inv c σC σIL → lookupS v σC.locals = some (.bv w x) →
+    ∃ σIL', ExecIL ms stepE σIL σIL' ∧
+      Inv c { σC with locals := setLocal σC.locals v (.bv w (x + BitVec.ofNat w (if step == 0 then 1 else step))) } σIL'
 
+theorem stmt_main : ∀ f : Nat,
+    (∀ s st eff st' σC σIL σC', compileStmt env st s = .ok (eff, st') → WFStmt c s = true →
+        WFHyp ms WF c (exprsOf s) → Inv c σC σIL → execC ms f s σC = .ok σC' →
+        ∃ σIL', ExecIL ms eff σIL σIL' ∧ Inv c σC' σIL') ∧
+    (∀ ss st effs st' σC σIL σC', compileStmts env st ss = .ok (effs, st') → WFStmts c ss = true →
+        WFHyp ms WF c (exprsOfList ss) → Inv c σC σIL → execCs ms f ss σC = .ok σC' →
+        ∃ σIL', ExecSeqIL ms effs σIL σIL' ∧ Inv c σC' σIL') ∧
+    (∀ v cond step body st bs st' cc stepE loopBody σC σIL σC', compileExpr env cond = .ok cc →
+        compileStmts env st body = .ok (bs, st') → LoopShape ms c v step bs stepE loopBody →
+        WFStmts c body = true → WFHyp ms WF c (cond :: exprsOfList body) → Inv c σC σIL →
+        loopC ms f v cond step body σC = .ok σC' →
+        ∃ σIL', ExecIL ms (.repeat_ (condIL Cfg.fixed cc) loopBody) σIL σIL' ∧ Inv c σC' σIL') := by
+  intro f
+  induction f with
+  | zero =>
+    refine ⟨?_, ?_, ?_⟩
+    · intro s st eff st' σC σIL σC' _ _ _ _ h; simp [execC] at h
+    · intro ss st effs st' σC σIL σC' _ _ _ _ h; simp [execCs] at h
+    · intro v cond step body st bs st' cc stepE loopBody σC σIL σC' _ _ _ _ _ _ h; simp [loopC] at h
+  | succ f ih =>
+    obtain ⟨ihE, ihS, ihL⟩ := ih
+    refine ⟨?_, ?_, ?_⟩
+    · intro s st eff st' σC σIL σC' hcomp hwf hWF hinv hex
+      cases s with
+      | decl t n init =>
+        cases init with
+        | none =>
+          simp only [compileStmt, Except.ok.injEq, Prod.mk.injEq] at hcomp
+          simp only [execC, Except.ok.injEq] at hex
+          obtain ⟨rfl, _⟩ := hcomp
+          subst hex
+          exact ⟨_, ExecIL_empty, hinv⟩
+        | some e => exact decl_correct hE henv hc hcomp hwf hWF hinv hex
+      | assign lhs op e => exact assign_correct hE henv hc hcomp hwf hWF hinv hex
+      | store w e => exact store_correct hE henv hcomp hwf hWF hinv hex
+      | jump e => exact jump_correct hE henv hc hcomp hwf hWF hinv hex
+      | skip w => exact skip_correct henv hc hcomp hinv hex
+      | ite cnd t e =>
+        cases e with
+        | none =>
+          simp only [compileStmt] at hcomp
+          obtain ⟨cc, hcc, hcomp1⟩ := bind_ok hcomp
+          obtain ⟨⟨ts, st1⟩, hts, hcomp2⟩ := bind_ok hcomp1
+          clear hcomp hcomp1
+          simp only [Except.ok.injEq, Prod.mk.injEq] at hcomp2
+          obtain ⟨rfl, _⟩ := hcomp2
+          simp only [execC] at hex
+          obtain ⟨vc, hvc, hex1⟩ := bind_ok hex
+          obtain ⟨b, hb, hex2⟩ := bind_ok hex1
+          clear hex hex1
+          simp only [WFStmt, Bool.and_eq_true] at hwf
+          simp only [exprsOf] at hWF
+          have hsim := expr_sim hE henv (hinv.rel.agreeOn _ _) hinv.inv (hWF.mono (by simp)) hvc hcc
+          have hcond := sim_cond hsim hb
+          rw [henv]
+          cases b with
+          | true =>
+            simp only [↓reduceIte] at hex2
+            obtain ⟨σIL', hx, hinv'⟩ := ihS t _ ts st1 σC σIL σC' hts hwf.1
+              (hWF.mono (fun _ h => List.mem_cons_of_mem _ (List.mem_append_left _ h))) hinv hex2
+            exact ⟨σIL', ExecIL_branch hcond (mkSeq_exec.2 hx), hinv'⟩
+          | false =>
+            simp only [Bool.false_eq_true, ↓reduceIte, Except.ok.injEq] at hex2
+            subst hex2
+            exact ⟨σIL, ExecIL_branch hcond ExecIL_empty, hinv⟩
+        | some e =>
+          simp only [compileStmt] at hcomp
+          obtain ⟨cc, hcc, hcomp1⟩ := bind_ok hcomp
+          obtain ⟨⟨ts, st1⟩, hts, hcomp2⟩ := bind_ok hcomp1
+          obtain ⟨⟨es, st2⟩, hes, hcomp3⟩ := bind_ok hcomp2
+          clear hcomp hcomp1 hcomp2
+          simp only [Except.ok.injEq, Prod.mk.injEq] at hcomp3
+          obtain ⟨rfl, _⟩ := hcomp3
+          simp only [execC] at hex
+          obtain ⟨vc, hvc, hex1⟩ := bind_ok hex
+          obtain ⟨b, hb, hex2⟩ := bind_ok hex1
+          clear hex hex1
+          simp only [WFStmt, Bool.and_eq_true] at hwf
+          simp only [exprsOf] at hWF
+          have hsim := expr_sim hE henv (hinv.rel.agreeOn _ _) hinv.inv (hWF.mono (by simp)) hvc hcc
+          have hcond := sim_cond hsim hb
+          rw [henv]
+          cases b with
+          | true =>
+            simp only [↓reduceIte] at hex2
+            obtain ⟨σIL', hx, hinv'⟩ := ihS t _ ts st1 σC σIL σC' hts hwf.1
+              (hWF.mono (fun _ h => List.mem_cons_of_mem _ (List.mem_append_left _ h))) hinv hex2
+            exact ⟨σIL', ExecIL_branch hcond (mkSeq_exec.2 hx), hinv'⟩
+          | false =>
+            simp only [Bool.false_eq_true, ↓reduceIte] at hex2
+            obtain ⟨σIL', hx, hinv'⟩ := ihS e _ es st2 σC σIL σC' hes hwf.2
+              (hWF.mono (fun _ h => List.mem_cons_of_mem _ (List.mem_append_right _ h))) hinv hex2
+            exact ⟨σIL', ExecIL_branch hcond (mkSeq_exec.2 hx), hinv'⟩
+      | chain l1 l2 op2 e => exact chain_correct hE henv hc hcomp hwf hWF hinv hex
+      | exprstmt e => simp [WFStmt] at hwf
+      | ret e => simp [WFStmt] at hwf
+      | for_ v cnd step body =>
+        simp only [execC] at hex
+        simp only [WFStmt, Bool.and_eq_true] at hwf
+        simp only [exprsOf] at hWF
+        obtain ⟨hv, hwfb⟩ := hwf
+        cases hvt : lookupS v c.types with
+        | none => rw [hvt] at hv; simp at hv
+        | some t =>
+          rw [hvt] at hv
+          simp only [beq_iff_eq] at hv
+          obtain ⟨σIL0, hx0, hinv0⟩ := for_init_correct (ms := ms) hc hinv hvt hv
+          rw [compileStmt] at hcomp
+          obtain ⟨cc, hcc, hcomp1⟩ := bind_ok hcomp
+          clear hcomp
+          by_cases hstep : step = 0
+          · subst hstep
+            simp only [beq_self_eq_true, ↓reduceIte] at hcomp1
+            obtain ⟨⟨bs, st1⟩, hbs, hcomp2⟩ := bind_ok hcomp1
+            clear hcomp1
+            simp only [Except.ok.injEq, Prod.mk.injEq] at hcomp2
+            obtain ⟨rfl, _⟩ := hcomp2
+            have hshape : LoopShape ms c v 0 bs (.seqn [.setl s!"h_tmp{(addImms st (immsOfExpr cnd)).hyb}" (.varl v),
+                .setl v (.inc (.varl v) 32)]) (.seqn [mkSeq bs, .seqn [.setl s!"h_tmp{(addImms st (immsOfExpr cnd)).hyb}" (.varl v),
+                .setl v (.inc (.varl v) 32)]]) :=
+              { body := fun σ σ1 σ2 h1 h2 => ExecIL_seqn.2 (ExecSeqIL_cons (mkSeq_exec.2 h1) (ExecSeqIL_cons h2 ExecSeqIL_nil))
+                step := fun σC1 σIL1 w x hi hl => for_step_correct (ms := ms) hc hi hvt hv (isTmp_tmp _) hl }
+            obtain ⟨σIL', hx, hinv'⟩ := ihL v cnd 0 body _ bs st1 cc _ _ _ σIL0 σC' hcc hbs hshape hwfb hWF hinv0 hex
+            rw [henv]
+            exact ⟨σIL', ExecIL_seqn.2 (ExecSeqIL_cons hx0 (ExecSeqIL_cons hx ExecSeqIL_nil)), hinv'⟩
+          · have hs' : (step == 0) = false := by simp [hstep]
+            simp only [hs', Bool.false_eq_true, ↓reduceIte] at hcomp1
+            obtain ⟨⟨stepEff, src⟩, hse, hcomp2⟩ := bind_ok hcomp1
+            obtain ⟨⟨bs, st1⟩, hbs, hcomp3⟩ := bind_ok hcomp2
+            clear hcomp1 hcomp2
+            simp only [Except.ok.injEq, Prod.mk.injEq] at hcomp3
+            obtain ⟨rfl, _⟩ := hcomp3
+            have hshape : LoopShape ms c v step bs stepEff (mkSeq (bs ++ [stepEff])) :=
+              { body := fun σ σ1 σ2 h1 h2 => mkSeq_exec.2 (ExecSeqIL_append h1 (ExecSeqIL_cons h2 ExecSeqIL_nil))
+                step := fun σC1 σIL1 w x hi hl => by
+                  simp only [hs', Bool.false_eq_true, ↓reduceIte]
+                  exact for_stepk_correct (ms := ms) henv hc hi hvt hv hse hl }
+            obtain ⟨σIL', hx, hinv'⟩ := ihL v cnd step body _ bs st1 cc _ _ _ σIL0 σC' hcc hbs hshape hwfb hWF hinv0 hex
+            rw [henv]
+            exact ⟨σIL', ExecIL_seqn.2 (ExecSeqIL_cons hx0 (ExecSeqIL_cons hx ExecSeqIL_nil)), hinv'⟩
+    · intro ss st effs st' σC σIL σC' hcomp hwf hWF hinv hex
+      cases ss with
+      | nil =>
+        simp only [compileStmts, Except.ok.injEq, Prod.mk.injEq] at hcomp
+        simp only [execCs, Except.ok.injEq] at hex
+        obtain ⟨rfl, _⟩ := hcomp
+        subst hex
+        exact ⟨_, ExecSeqIL_nil, hinv⟩
+      | cons s ss =>
+        rw [compileStmts] at hcomp
+        obtain ⟨⟨e, st1⟩, he, hcomp1⟩ := bind_ok hcomp
+        obtain ⟨⟨es, st2⟩, hes, hcomp2⟩ := bind_ok hcomp1
+        simp only [Except.ok.injEq, Prod.mk.injEq] at hcomp2
+        obtain ⟨rfl, _⟩ := hcomp2
+        rw [execCs] at hex
+        obtain ⟨σ1, h1, h2⟩ := bind_ok hex
+        simp only [WFStmts, Bool.and_eq_true] at hwf
+        simp only [exprsOfList] at hWF
+        obtain ⟨σIL1, hx1, hinv1⟩ := ihE s st e st1 σC σIL σ1 he hwf.1
+          (hWF.mono (fun _ h => List.mem_append_left _ h)) hinv h1
+        obtain ⟨σIL2, hx2, hinv2⟩ := ihS ss st1 es st2 σ1 σIL1 σC' hes hwf.2
+          (hWF.mono (fun _ h => List.mem_append_right _ h)) hinv1 h2
+        exact ⟨σIL2, ExecSeqIL_cons hx1 hx2, hinv2⟩
+    · intro v cond step body st bs st' cc stepE loopBody σC σIL σC' hcc hbs hshape hwfb hWF hinv hex
+      rw [loopC] at hex
+      obtain ⟨vc, hvc, hex1⟩ := bind_ok hex
+      obtain ⟨b, hb, hex2⟩ := bind_ok hex1
+      clear hex hex1
+      have hsim := expr_sim hE henv (hinv.rel.agreeOn _ _) hinv.inv (hWF.mono (by simp)) hvc hcc
+      have hcond := sim_cond hsim hb
+      cases b with
+      | false =>
+        simp only [Bool.false_eq_true, ↓reduceIte, Except.ok.injEq] at hex2
+        subst hex2
+        exact ⟨σIL, ExecIL_repeat_false hcond, hinv⟩
+      | true =>
+        simp only [↓reduceIte] at hex2
+        obtain ⟨σ1, hb1, hex3⟩ := bind_ok hex2
+        obtain ⟨σIL1, hx1, hinv1⟩ := ihS body st bs st' σC σIL σ1 hbs hwfb
+          (hWF.mono (fun _ h => List.mem_cons_of_mem _ h)) hinv hb1
+        split at hex3
+        · rename_i w x hl
+          obtain ⟨σIL2, hx2, hinv2⟩ := hshape.step σ1 σIL1 w x hinv1 hl
+          obtain ⟨σIL', hx3, hinv'⟩ := ihL v cond step body st bs st' cc stepE loopBody _ σIL2 σC' hcc hbs hshape hwfb hWF hinv2 hex3
+          exact ⟨σIL', ExecIL_repeat_true hcond (hshape.body _ _ _ hx1 hx2) hx3, hinv'⟩
+        · simp at hex3
+
+/-- **C05 (T1), statements.** Under `Cfg.fixed`, if the C statement `s` runs from `σC` to `σC'` and the
+    IL state `σIL` is related to `σC`, the compiled effect runs from `σIL` to a state related to `σC'`.
+    `Inv c` is `StRel` plus the IL-side invariant (`SInv`: locals have their declared widths, every
+    immediate letter of the behaviour is set, source operands are unwritten) plus "no `h_tmpN` on the C side". -/
+theorem stmt_correct_fixed {s : CStmt} {st st' : TSt} {eff : ILEffect}
+    (hcomp : compileStmt env st s = .ok (eff, st')) (hwf : WFStmt c s = true)
+    (hWF : WFHyp ms WF c (exprsOf s)) {σC σIL σC' : MState} (hinv : Inv c σC σIL)
+    (hex : ExecC ms s σC σC') :
+    ∃ σIL', ExecIL ms eff σIL σIL' ∧ Inv c σC' σIL' := by
+  obtain ⟨f, hf⟩ := ExecC_iff.1 hex
+  exact (stmt_main hE henv hc f).1 s st eff st' σC σIL σC' hcomp hwf hWF hinv hf
+
+/-- the same for statement lists (blocks) -/
+theorem stmts_correct_fixed {ss : List CStmt} {st st' : TSt} {effs : List ILEffect}
+    (hcomp : compileStmts env st ss = .ok (effs, st')) (hwf : WFStmts c ss = true)
+    (hWF : WFHyp ms WF c (exprsOfList ss)) {σC σIL σC' : MState} (hinv : Inv c σC σIL)
+    (hex : ExecCs ms ss σC σC') :
+    ∃ σIL', ExecSeqIL ms effs σIL σIL' ∧ Inv c σC' σIL' := by
+  obtain ⟨f, hf⟩ := ExecCs_iff.1 hex
+  exact (stmt_main hE henv hc f).2.1 ss st effs st' σC σIL σC' hcomp hwf hWF hinv hf
+
+/-- the conclusion in the form of the specification: related final states -/
+theorem stmt_correct_fixed_rel {s : CStmt} {st st' : TSt} {eff : ILEffect}
+    (hcomp : compileStmt env st s = .ok (eff, st')) (hwf : WFStmt c s = true)
+    (hWF : WFHyp ms WF c (exprsOf s)) {σC σIL σC' : MState} (hinv : Inv c σC σIL)
+    (hex : ExecC ms s σC σC') :
+    ∃ σIL', ExecIL ms eff σIL σIL' ∧ StRel σC' σIL' := by
+  obtain ⟨σIL', h1, h2⟩ := stmt_correct_fixed hE henv hc hcomp hwf hWF hinv hex
+  exact ⟨σIL', h1, h2.rel⟩
+
+end Main
+
+/-! ## whole behaviours -/
+
+/-- **C05 (T1), whole behaviour.** Both sides start from the same state without locals; the C program and
+    the compiled effect (prologue setting all immediates, then the statements) end in related states. -/
+theorem prog_correct_fixed {ms : MacroSem} {WF : MState → CExpr → Prop} (hE : ExprOK ms WF)
+    {c : Ctx} (hc : c.ok = true) {prog : List CStmt} {eff : ILEffect}
+    (hcomp : compileProg Cfg.fixed prog = .ok eff)
+    (himms : ∀ l, l ∈ c.imms ↔ l ∈ progImms prog)
+    (hwf : WFStmts c prog = true) (hWF : WFHyp ms WF c (exprsOfList prog))
+    {σ0 σC' : MState} (hloc : σ0.locals = []) (hsrcs : ∀ ov ∈ c.srcs, σ0.written ov = false)
+    (hex : ExecCs ms prog σ0 σC') :
+    ∃ σIL', ExecIL ms eff σ0 σIL' ∧ StRel σC' σIL' := by
+  unfold compileProg at hcomp
+  obtain ⟨⟨es, st⟩, hcs, h⟩ := bind_ok hcomp
+  simp only [Except.ok.injEq] at h
+  subst h
+  have hpi : progImms prog = st.imms.map (·.1) := by simp only [progImms, hcs]
+  obtain ⟨σ1, hpro, h1, h2, h3, h4, h5, h6, h7, hout, hin⟩ := prologue_exec ms st.imms σ0
+  have hnone : ∀ n, lookupS n σ0.locals = none := by intro n; rw [hloc]; rfl
+  have hinv : Inv c σ0 σ1 := by
+    refine ⟨⟨h1.symm, h2.symm, h3.symm, h4.symm, h5.symm, h6.symm, h7.symm, ?_⟩, ⟨?_, ?_, ?_⟩, ?_⟩
+    · intro n v hn; rw [hnone] at hn; cases hn
+    · intro n t v hn hv
+      have hni : n ∉ st.imms.map (·.1) := by
+        rw [← hpi]; intro hm
+        exact (Ctx.ok_types hc hn).2.2 ((himms n).2 hm)
+      rw [hout n hni, hnone] at hv; cases hv
+    · intro l hl
+      rw [h5]
+      exact hin l (hpi ▸ (himms l).1 hl)
+    · intro ov hov; rw [h3]; exact hsrcs ov hov
+    · intro n _; exact hnone n
+  obtain ⟨σIL', hx, hinv'⟩ := stmts_correct_fixed hE (env := { assigned := assignedOfList prog, cfg := Cfg.fixed })
+    rfl hc hcs hwf hWF hinv hex
+  exact ⟨σIL', mkSeq_exec.2 (ExecSeqIL_append hpro hx), hinv'.rel⟩
+
+/-! ## T2: on the carve-out the lowering as coded is the repaired lowering -/
+
+/-- **C05 (T2).** Given the expression-level T2 for `CarveE`, a statement in the carve-out `CarveS`
+    (all its expressions in `CarveE`; every conversion the statement applies emits the same cast under
+    both configurations; conditions wrapped alike; `+= -= *= <<= >>=` only on targets of at least 32 bit;
+    `for` with step `v++`) is lowered to the same effect by `Cfg.asCode` and `Cfg.fixed`. -/
+theorem stmt_asCode_eq_fixed {CarveE : CExpr → Bool} {env : CEnv} (hT2 : ExprT2 env CarveE) (st : TSt) (s : CStmt)
+    (h : CarveS CarveE env s = true) :
+    compileStmt { env with cfg := Cfg.asCode } st s = compileStmt { env with cfg := Cfg.fixed } st s :=
+  T2_stmt hT2 s st h
+
+theorem stmts_asCode_eq_fixed {CarveE : CExpr → Bool} {env : CEnv} (hT2 : ExprT2 env CarveE) (st : TSt)
+    (ss : List CStmt) (h : CarveSs CarveE env ss = true) :
+    compileStmts { env with cfg := Cfg.asCode } st ss = compileStmts { env with cfg := Cfg.fixed } st ss :=
+  T2_stmts hT2 ss st h
+
+/-- T2 for whole behaviours -/
+theorem prog_asCode_eq_fixed {CarveE : CExpr → Bool} (prog : List CStmt)
+    (hT2 : ExprT2 { assigned := assignedOfList prog, cfg := Cfg.fixed } CarveE)
+    (h : CarveSs CarveE { assigned := assignedOfList prog, cfg := Cfg.fixed } prog = true) :
+    compileProg Cfg.asCode prog = compileProg Cfg.fixed prog := by
+  unfold compileProg
+  have := T2_stmts hT2 prog { imms := [], hyb := 0 } h
+  simp only [codeEnv, fixedEnv] at this
+  simp only [this]
+
+/-- T1 + T2: on the carve-out the lowering AS CODED preserves the C semantics -/
+theorem prog_correct_asCode_on_carveout {ms : MacroSem} {WF : MState → CExpr → Prop} (hE : ExprOK ms WF)
+    {CarveE : CExpr → Bool} {prog : List CStmt}
+    (hT2 : ExprT2 { assigned := assignedOfList prog, cfg := Cfg.fixed } CarveE)
+    {c : Ctx} (hc : c.ok = true) {eff : ILEffect}
+    (hcarve : CarveSs CarveE { assigned := assignedOfList prog, cfg := Cfg.fixed } prog = true)
+    (hcomp : compileProg Cfg.asCode prog = .ok eff)
+    (himms : ∀ l, l ∈ c.imms ↔ l ∈ progImms prog)
+    (hwf : WFStmts c prog = true) (hWF : WFHyp ms WF c (exprsOfList prog))
+    {σ0 σC' : MState} (hloc : σ0.locals = []) (hsrcs : ∀ ov ∈ c.srcs, σ0.written ov = false)
+    (hex : ExecCs ms prog σ0 σC') :
+    ∃ σIL', ExecIL ms eff σ0 σIL' ∧ StRel σC' σIL' := by
+  rw [prog_asCode_eq_fixed prog hT2 hcarve] at hcomp
+  exact prog_correct_fixed hE hc hcomp himms hwf hWF hloc hsrcs hex
+
+/-! ## T3: outside the carve-out the two lowerings differ -/
+
+mutual
+def pureSize : ILPure → Nat
+  | .un _ a => pureSize a + 1
+  | .bin _ a b => pureSize a + pureSize b + 1
+  | .cast _ f a => pureSize f + pureSize a + 1
+  | .signed _ a => pureSize a + 1
+  | .unsigned _ a => pureSize a + 1
+  | .ite c a b => pureSize c + pureSize a + pureSize b + 1
+  | .let_ _ v b => pureSize v + pureSize b + 1
+  | .loadw _ a => pureSize a + 1
+  | .inc a _ => pureSize a + 1
+  | .dec a _ => pureSize a + 1
+  | .macro _ args => puresSize args + 1
+  | _ => 1
+def puresSize : List ILPure → Nat
+  | [] => 0
+  | a :: as => pureSize a + puresSize as
+end
+mutual
+def effSize : ILEffect → Nat
+  | .setl _ v => pureSize v + 1
+  | .writeReg _ _ v => pureSize v + 1
+  | .storew a v => pureSize a + pureSize v + 1
+  | .seqn es => effsSize es + 1
+  | .branch c t e => pureSize c + effSize t + effSize e + 1
+  | .repeat_ c b => pureSize c + effSize b + 1
+  | .call _ args => puresSize args + 1
+  | _ => 1
+def effsSize : List ILEffect → Nat
+  | [] => 0
+  | e :: es => effSize e + effsSize es
+end
+
+def sizeOfRes : Except String ILEffect → Option Nat
+  | .ok e => some (effSize e)
+  | .error _ => none
+
+/-- `int16_t a = RsV; a += 100000; RdV = a;` -/
+def t3prog : List CStmt :=
+  [.decl ⟨true, 16⟩ "a" (some (.reg "RsV" .src ⟨true, 32⟩)),
+   .assign (.var "a" ⟨true, 16⟩) "+=" (.lit 100000 false ""),
+   .assign (.reg "RdV" .dst ⟨true, 32⟩) "=" (.var "a" ⟨true, 16⟩)]
+
+set_option maxRecDepth 4000 in
+/-- **C05 (T3).** Compound assignment to a 16-bit local: the code does not convert the 32-bit sum back
+    to `int16_t` (`compoundNoConvertBack`), the repaired lowering does — the emitted trees differ
+    (27 against 44 nodes) -/
+theorem t3_compound_narrow_differs : compileProg Cfg.asCode t3prog ≠ compileProg Cfg.fixed t3prog := by
+  intro h
+  have : sizeOfRes (compileProg Cfg.asCode t3prog) = sizeOfRes (compileProg Cfg.fixed t3prog) := by rw [h]
+  revert this
+  decide
+
+/-- the witness is outside the carve-out, for every expression carve-out -/
+theorem t3_not_carved (CarveE : CExpr → Bool) :
+    CarveSs CarveE { assigned := assignedOfList t3prog, cfg := Cfg.fixed } t3prog = false := by
+  have h2 : ∀ env, CarveS CarveE env (.assign (.var "a" ⟨true, 16⟩) "+=" (.lit 100000 false "")) = false := by
+    intro env
+    simp (config := { decide := true }) [CarveS, compileExpr, fixedEnv, assignCarve, CT.toVT, Cfg.fixed]
+  simp only [t3prog, CarveSs, h2, Bool.false_and, Bool.and_false]
+
+/-! ## named facts of the property (semantics of the emitted shapes) -/
+
+/-- `if_exactly_one_arm`: a `BRANCH` runs exactly one of its arms, selected by the condition -/
+theorem if_exactly_one_arm {ms : MacroSem} {c : ILPure} {t e : ILEffect} {σ σ' : MState}
+    (h : ExecIL ms (.branch c t e) σ σ') :
+    (evalPure ms σ [] c = .ok (.bool true) ∧ ExecIL ms t σ σ') ∨
+    (evalPure ms σ [] c = .ok (.bool false) ∧ ExecIL ms e σ σ') := by
+  obtain ⟨F, h⟩ := h
+  have h' := h (F+1) (by omega)
+  rw [execIL] at h'
+  obtain ⟨vc, hvc, h2⟩ := bind_ok h'
+  split at h2
+  · exact Or.inl ⟨hvc, ⟨F, execIL_mono h2⟩⟩
+  · exact Or.inr ⟨hvc, ⟨F, execIL_mono h2⟩⟩
+  · simp at h2
+
+/-- the two alternatives exclude each other (the condition has one value) -/
+theorem if_arms_exclusive {ms : MacroSem} {c : ILPure} {σ : MState} :
+    ¬ (evalPure ms σ [] c = .ok (.bool true) ∧ evalPure ms σ [] c = .ok (.bool false)) := by
+  rintro ⟨h1, h2⟩; rw [h1] at h2; cases h2
+
+/-- one unfolding of `REPEAT` -/
+theorem repeat_unfold {ms : MacroSem} {c : ILPure} {b : ILEffect} {σ σ' : MState} :
+    ExecIL ms (.repeat_ c b) σ σ' ↔
+      (evalPure ms σ [] c = .ok (.bool false) ∧ σ' = σ) ∨
+      (evalPure ms σ [] c = .ok (.bool true) ∧ ∃ σ1, ExecIL ms b σ σ1 ∧ ExecIL ms (.repeat_ c b) σ1 σ') := by
+  constructor
+  · rintro ⟨F, h⟩
+    have h' := h (F+1) (by omega)
+    rw [execIL] at h'
+    obtain ⟨vc, hvc, h2⟩ := bind_ok h'
+    split at h2
+    · obtain ⟨σ1, h3, h4⟩ := bind_ok h2
+      exact Or.inr ⟨hvc, σ1, ⟨F, execIL_mono h3⟩, ⟨F, execIL_mono h4⟩⟩
+    · exact Or.inl ⟨hvc, (Except.ok.inj h2).symm⟩
+    · simp at h2
+  · rintro (⟨hc, rfl⟩ | ⟨hc, σ1, h1, h2⟩)
+    · exact ExecIL_repeat_false hc
+    · exact ExecIL_repeat_true hc h1 h2
+
+/-- `for_order`: the emitted loop `SEQN(init, REPEAT(cond, SEQN(body, step)))` runs `init` exactly once and
+    then, while the condition holds, `body` followed by `step` -/
+theorem for_order {ms : MacroSem} {init body step : ILEffect} {c : ILPure} {σ σ' : MState} :
+    ExecIL ms (.seqn [init, .repeat_ c (.seqn [body, step])]) σ σ' ↔
+      ∃ σ0, ExecIL ms init σ σ0 ∧ ExecIL ms (.repeat_ c (.seqn [body, step])) σ0 σ' := by
+  rw [ExecIL_seqn]
+  constructor
+  · intro h
+    obtain ⟨σ0, h1, h2⟩ := ExecSeqIL_cons_inv h
+    obtain ⟨σ1, h3, h4⟩ := ExecSeqIL_cons_inv h2
+    rw [ExecSeqIL_nil_inv h4]
+    exact ⟨σ0, h1, h3⟩
+  · rintro ⟨σ0, h1, h2⟩
+    exact ExecSeqIL_cons h1 (ExecSeqIL_cons h2 ExecSeqIL_nil)
+
+theorem for_iteration {ms : MacroSem} {body step : ILEffect} {σ σ2 : MState} :
+    ExecIL ms (.seqn [body, step]) σ σ2 ↔ ∃ σ1, ExecIL ms body σ σ1 ∧ ExecIL ms step σ1 σ2 := by
+  rw [ExecIL_seqn]
+  constructor
+  · intro h
+    obtain ⟨σ1, h1, h2⟩ := ExecSeqIL_cons_inv h
+    obtain ⟨σ3, h3, h4⟩ := ExecSeqIL_cons_inv h2
+    rw [ExecSeqIL_nil_inv h4]
+    exact ⟨σ1, h1, h3⟩
+  · rintro ⟨σ1, h1, h2⟩
+    exact ExecSeqIL_cons h1 (ExecSeqIL_cons h2 ExecSeqIL_nil)
+
+theorem ExecIL_setl_inv {ms : MacroSem} {n : String} {v : ILPure} {σ σ' : MState} (h : ExecIL ms (.setl n v) σ σ') :
+    ∃ vv, evalPure ms σ [] v = .ok vv ∧ σ' = { σ with locals := setLocal σ.locals n vv } := by
+  obtain ⟨F, h⟩ := h
+  have h' := h (F+1) (by omega)
+  rw [execIL] at h'
+  obtain ⟨vv, hvv, h2⟩ := bind_ok h'
+  exact ⟨vv, hvv, (Except.ok.inj h2).symm⟩
+
+theorem ExecIL_writeReg_inv {ms : MacroSem} {ctx : String} {r : RegRef} {v : ILPure} {σ σ' : MState}
+    (h : ExecIL ms (.writeReg ctx r v) σ σ') :
+    ∃ (w : Nat) (x : BitVec w), evalPure ms σ [] v = .ok (.bv w x) ∧
+      σ' = { σ with new := fun k => if k == r.opvar then x.toNat else σ.new k,
+                    written := fun k => if k == r.opvar then true else σ.written k } := by
+  obtain ⟨F, h⟩ := h
+  have h' := h (F+1) (by omega)
+  rw [execIL] at h'
+  obtain ⟨vv, hvv, h2⟩ := bind_ok h'
+  split at h2
+  · rename_i w x wr _
+    split at h2
+    · exact ⟨w, x, hvv, (Except.ok.inj h2).symm⟩
+    · simp at h2
+  · simp at h2
+
+/-- `assign_updates_only_target` (IL side): the effect emitted for an assignment changes only its target:
+    a local target leaves registers, memory and every other local alone; a register target leaves locals,
+    memory and every other operand alone -/
+theorem assign_updates_only_target {ms : MacroSem} {env : CEnv} {lhs : CExpr} {op : String} {ce : CE}
+    {eff : ILEffect} {src : CE} (hcomp : compileAssign env lhs op ce = .ok (eff, src))
+    {σ σ' : MState} (hx : ExecIL ms eff σ σ') :
+    σ'.mem = σ.mem ∧ σ'.cur = σ.cur ∧ σ'.imm = σ.imm ∧ σ'.pktAddr = σ.pktAddr ∧ σ'.stores = σ.stores ∧
+    (match (generalizing := false) lhs with
+     | .var n _ => σ'.new = σ.new ∧ σ'.written = σ.written ∧ ∀ k, k ≠ n → lookupS k σ'.locals = lookupS k σ.locals
+     | .reg n k _ => σ'.locals = σ.locals ∧
+         ∀ q, q ≠ opvarOf n k → σ'.new q = σ.new q ∧ σ'.written q = σ.written q
+     | _ => True) := by
+  unfold compileAssign at hcomp
+  obtain ⟨cd, _, h1⟩ := bind_ok hcomp
+  obtain ⟨s0, _, h2⟩ := bind_ok h1
+  obtain ⟨eff', hdw, h3⟩ := bind_ok h2
+  simp only [Except.ok.injEq, Prod.mk.injEq] at h3
+  obtain ⟨rfl, _⟩ := h3
+  cases lhs with
+  | var n t =>
+    simp only [destWrite, Except.ok.injEq] at hdw
+    subst hdw
+    obtain ⟨vv, _, rfl⟩ := ExecIL_setl_inv hx
+    refine ⟨rfl, rfl, rfl, rfl, rfl, rfl, rfl, ?_⟩
+    intro k hk
+    exact lookupS_setLocal_ne hk _ _
+  | reg n k t =>
+    simp only [destWrite, Except.ok.injEq] at hdw
+    subst hdw
+    obtain ⟨w, x, _, rfl⟩ := ExecIL_writeReg_inv hx
+    refine ⟨rfl, rfl, rfl, rfl, rfl, rfl, ?_⟩
+    intro q hq
+    simp [hq]
+  | _ => simp [destWrite] at hdw
+
+/-- the same on the C side: `writeLhsC` changes only the target -/
+theorem assignC_updates_only_target {lhs : CExpr} {v : Val} {σ σ' : MState} (h : writeLhsC σ lhs v = .ok σ') :
+    σ'.mem = σ.mem ∧ σ'.cur = σ.cur ∧ σ'.imm = σ.imm ∧ σ'.pktAddr = σ.pktAddr ∧ σ'.stores = σ.stores ∧
+    (match (generalizing := false) lhs with
+     | .var n _ => σ'.new = σ.new ∧ σ'.written = σ.written ∧ ∀ k, k ≠ n → lookupS k σ'.locals = lookupS k σ.locals
+     | .reg n k _ => σ'.locals = σ.locals ∧
+         ∀ q, q ≠ opvarOf n k → σ'.new q = σ.new q ∧ σ'.written q = σ.written q
+     | _ => True) := by
+  cases lhs with
+  | var n t =>
+    simp only [writeLhsC, Except.ok.injEq] at h
+    subst h
+    exact ⟨rfl, rfl, rfl, rfl, rfl, rfl, rfl, fun k hk => lookupS_setLocal_ne hk _ _⟩
+  | reg n k t =>
+    cases v with
+    | bv w x =>
+      simp only [writeLhsC, writeRegC, Except.ok.injEq] at h
+      subst h
+      refine ⟨rfl, rfl, rfl, rfl, rfl, rfl, ?_⟩
+      intro q hq
+      simp [hq]
+    | _ => simp [writeLhsC, writeRegC] at h
+  | _ => simp [writeLhsC] at h
+
+/-! ## the side condition of chained assignment is necessary (model finding) -/
+
+def noMacros : MacroSem := fun _ _ => none
+def i32 : CT := ⟨true, 32⟩
+
+/-- `int a = 1; int b = 2; a = b += a;` — the outer target `a` is read by the inner source -/
+def chainProg : List CStmt :=
+  [.decl i32 "a" (some (.lit 1 false "")), .decl i32 "b" (some (.lit 2 false "")),
+   .chain (.var "a" i32) (.var "b" i32) "+=" (.var "a" i32)]
+
+def finalLocal (n : String) : Except Stuck MState → Option Val
+  | .ok σ => lookupS n σ.locals
+  | .error _ => none
+
+def runIL (cfg : Cfg) (p : List CStmt) (fuel : Nat) (σ : MState) : Except Stuck MState :=
+  match compileProg cfg p with
+  | .ok eff => execIL noMacros [] fuel eff σ
+  | .error _ => .error (.undef "compile")
+
+set_option maxRecDepth 8000 in
+/-- C: `b += a` uses the old `a`: `b = 3` -/
+theorem chain_counterexample_C : finalLocal "b" (execCs noMacros 10 chainProg default) = some (.bv 32 3) := by
+  decide
+
+set_option maxRecDepth 8000 in
+/-- lowering (both configurations): `SEQN(SETL(a, b + a), SETL(b, b + a))` — the inner source is evaluated
+    after `a` was overwritten: `b = 5`.  Hence `targetIndep lhs1 [lhs2, e]` in `WFStmt` cannot be dropped. -/
+theorem chain_counterexample_IL :
+    finalLocal "b" (runIL Cfg.fixed chainProg 10 default) = some (.bv 32 5) ∧
+    finalLocal "b" (runIL Cfg.asCode chainProg 10 default) = some (.bv 32 5) := by
+  decide
+
+/-! ## non-vacuity: a concrete instance of all hypotheses of `prog_correct_fixed` and of T2 -/
+
+/-- a small instance of the expression theorem, proved here directly: locals (bound to a value of their
+    width) and literals -/
+def WFSimple (σ : MState) : CExpr → Prop
+  | .var n t => ∃ x : BitVec t.width, lookupS n σ.locals = some (.bv t.width x)
+  | .lit _ _ _ => True
+  | _ => False
+
+theorem exprOK_simple (ms : MacroSem) : ExprOK ms WFSimple := by
+  intro σ env e ce vC henv hwf hev hce
+  cases e with
+  | var n t =>
+    obtain ⟨x, hx⟩ := hwf
+    simp only [evalC, hx, Except.ok.injEq] at hev
+    simp only [compileExpr, Except.ok.injEq] at hce
+    subst hev; subst hce
+    have hb : (CT.toVT t).hasFlag VT.gBOOL = false := by simp [CT.toVT, VT.hasFlag, VT.gBOOL]
+    refine ⟨.bv t.width x, by simp only [evalPure, hx], ?_, ?_⟩
+    · simp [Rel, hb]
+    · simp only [TyOK, hb, Bool.false_eq_true, ↓reduceIte]
+      exact ⟨rfl, rfl, x, rfl⟩
+  | lit v h sfx =>
+    simp only [evalC, Except.ok.injEq] at hev
+    simp only [compileExpr, henv, Cfg.fixed, Bool.false_eq_true, ↓reduceIte, Except.ok.injEq] at hce
+    subst hev; subst hce
+    have hb : (CT.toVT (litTypeC v h sfx)).hasFlag VT.gBOOL = false := by simp [CT.toVT, VT.hasFlag, VT.gBOOL]
+    refine ⟨.bv (litTypeC v h sfx).width (BitVec.ofInt _ v), by simp only [numberIL, evalPure, CT.toVT], ?_, ?_⟩
+    · simp [Rel, hb, BitVec.ofInt_natCast]
+    · simp only [TyOK, hb, Bool.false_eq_true, ↓reduceIte, typeOfC]
+      exact ⟨rfl, rfl, _, rfl⟩
+  | _ => exact absurd hwf (by simp [WFSimple])
+
+/-- `int c = 1; int i; for (i = 0; c; i++) { c = 0; }  int16_t b = c; b += c; if (b) { c = b; } else { ; }`
+    (one loop iteration, data dependent) -/
+def demoProg : List CStmt :=
+  [.decl i32 "c" (some (.lit 1 false "")),
+   .decl i32 "i" none,
+   .for_ "i" (.var "c" i32) 0 [.assign (.var "c" i32) "=" (.lit 0 false "")],
+   .decl ⟨true, 16⟩ "b" (some (.var "c" i32)),
+   .assign (.var "b" ⟨true, 16⟩) "+=" (.var "c" i32),
+   .ite (.var "b" ⟨true, 16⟩) [.assign (.var "c" i32) "=" (.var "b" ⟨true, 16⟩)] (some [.skip ";"])]
+
+def demoCtx : Ctx := { types := [("c", i32), ("i", i32), ("b", ⟨true, 16⟩)], imms := [], srcs := [] }
+
+def isOk {ε α : Type} : Except ε α → Bool
+  | .ok _ => true
+  | .error _ => false
+
+theorem isOk_elim {ε α : Type} {x : Except ε α} (h : isOk x = true) : ∃ a, x = .ok a := by
+  cases x with
+  | ok a => exact ⟨a, rfl⟩
+  | error e => simp [isOk] at h
+
+set_option maxRecDepth 8000 in
+/-- every hypothesis of `prog_correct_fixed` holds for `demoProg` (so the theorem is not vacuous), and its
+    conclusion follows -/
+example : ∃ eff σC' σIL', compileProg Cfg.fixed demoProg = .ok eff ∧ ExecCs noMacros demoProg default σC' ∧
+    ExecIL noMacros eff default σIL' ∧ StRel σC' σIL' := by
+  obtain ⟨eff, hcomp⟩ := isOk_elim (x := compileProg Cfg.fixed demoProg) (by decide)
+  obtain ⟨σC', hC⟩ := isOk_elim (x := execCs noMacros 12 demoProg default) (by decide)
+  have hex : ExecCs noMacros demoProg default σC' := ExecCs_iff.2 ⟨12, hC⟩
+  have hc : demoCtx.ok = true := by decide
+  have hwf : WFStmts demoCtx demoProg = true := by decide
+  have himms : ∀ l, l ∈ demoCtx.imms ↔ l ∈ progImms demoProg := by
+    have : progImms demoProg = [] := by decide
+    intro l; rw [this]; simp [demoCtx]
+  have hWF : WFHyp noMacros WFSimple demoCtx (exprsOfList demoProg) := by
+    intro e he σ vC hinv hev
+    simp (config := { decide := true }) [demoProg, exprsOfList, exprsOf] at he
+    have hvar : ∀ n t, lookupS n demoCtx.types = some t → evalC noMacros σ (.var n t) = .ok vC →
+        WFSimple σ (.var n t) := by
+      intro n t ht hv
+      simp only [evalC] at hv
+      cases hl : lookupS n σ.locals with
+      | none => rw [hl] at hv; simp at hv
+      | some w =>
+        obtain ⟨x, rfl⟩ := hinv.typed n t w ht hl
+        exact ⟨x, hl⟩
+    rcases he with rfl | rfl | rfl | rfl | rfl | rfl | rfl
+    all_goals first
+      | exact trivial
+      | exact hvar _ _ (by decide) hev
+  obtain ⟨σIL', hx, hrel⟩ := prog_correct_fixed (exprOK_simple noMacros) hc hcomp himms hwf hWF rfl
+    (fun ov h => by simp [demoCtx] at h) hex
+  exact ⟨eff, σC', σIL', hcomp, hex, hx, hrel⟩
+
+/-- T2 instance: expression carve-out "locals only" (their lowering does not look at the configuration) -/
+def carveVar : CExpr → Bool
+  | .var _ _ => true
+  | _ => false
+
+theorem exprT2_var (env : CEnv) : ExprT2 env carveVar := by
+  intro e h
+  cases e <;> simp [carveVar] at h
+  simp only [compileExpr]
+
+/-- `int32_t b = a; a = b; a += b; a &= b; if (a) { b = a; } for (i = 0; a; i++) { a = b; }` -/
+def demoProgT2 : List CStmt :=
+  [.decl i32 "b" (some (.var "a" i32)),
+   .assign (.var "a" i32) "=" (.var "b" i32),
+   .assign (.var "a" i32) "+=" (.var "b" i32),
+   .assign (.var "a" i32) "&=" (.var "b" i32),
+   .ite (.var "a" i32) [.assign (.var "b" i32) "=" (.var "a" i32)] none,
+   .for_ "i" (.var "a" i32) 0 [.assign (.var "a" i32) "=" (.var "b" i32)]]
+
+set_option maxRecDepth 8000 in
+/-- the hypotheses of T2 hold for `demoProgT2`; hence both configurations emit the same effect -/
+example : compileProg Cfg.asCode demoProgT2 = compileProg Cfg.fixed demoProgT2 :=
+  prog_asCode_eq_fixed demoProgT2 (exprT2_var _) (by decide)
+
+/-! ## the theorem without the static side conditions `WFStmt` (NOT claimed: refuted) -/
+
+/-- `stmt_correct_fixed` with the hypothesis `WFStmt c s = true` dropped -/
+def stmt_correct_fixed_unrestricted_statement : Prop :=
+  ∀ (ms : MacroSem) (WF : MState → CExpr → Prop), ExprOK ms WF →
+  ∀ (c : Ctx) (env : CEnv), env.cfg = Cfg.fixed → c.ok = true →
+  ∀ (s : CStmt) (st st' : TSt) (eff : ILEffect), compileStmt env st s = .ok (eff, st') →
+    WFHyp ms WF c (exprsOf s) →
+  ∀ (σC σIL σC' : MState), Inv c σC σIL → ExecC ms s σC σC' →
+    ∃ σIL', ExecIL ms eff σIL σIL' ∧ StRel σC' σIL'
+
+def chainStmt : CStmt := .chain (.var "a" i32) (.var "b" i32) "+=" (.var "a" i32)
+def chainCtx : Ctx := { types := [("a", i32), ("b", i32)], imms := [], srcs := [] }
+def chainEnv : CEnv := { assigned := [], cfg := Cfg.fixed }
+def chainState : MState := { (default : MState) with locals := [("a", .bv 32 1), ("b", .bv 32 2)] }
+
+def runStmtIL (s : CStmt) (fuel : Nat) (σ : MState) : Except Stuck MState :=
+  match compileStmt chainEnv { imms := [], hyb := 0 } s with
+  | .ok (eff, _) => execIL noMacros [] fuel eff σ
+  | .error _ => .error (.undef "compile")
+
+theorem lookupS_two {α : Type} {n a b : String} {x y v : α} (h : lookupS n [(a, x), (b, y)] = some v) :
+    (n = a ∧ v = x) ∨ (n = b ∧ v = y) := by
+  simp only [lookupS] at h
+  by_cases h1 : n = a
+  · simp [h1] at h; exact Or.inl ⟨h1, h.symm⟩
+  · by_cases h2 : n = b
+    · subst h2
+      simp [h1] at h; exact Or.inr ⟨rfl, h.symm⟩
+    · simp [h1, h2] at h
+
+set_option maxRecDepth 8000 in
+/-- `a = b += a` (targets and operands all locals): the statement theorem fails without `WFStmt`, which for
+    chained assignment demands that the outer target is read neither by the inner target nor by `e` -/
+theorem stmt_correct_fixed_unrestricted_false : ¬ stmt_correct_fixed_unrestricted_statement := by
+  intro H
+  obtain ⟨⟨eff, st'⟩, hcomp⟩ := isOk_elim (x := compileStmt chainEnv { imms := [], hyb := 0 } chainStmt) (by decide)
+  obtain ⟨σC', hC⟩ := isOk_elim (x := execC noMacros 5 chainStmt chainState) (by decide)
+  have hWF : WFHyp noMacros WFSimple chainCtx (exprsOf chainStmt) := by
+    intro e he σ vC hinv hev
+    simp (config := { decide := true }) [chainStmt, exprsOf] at he
+    have hvar : ∀ n t, lookupS n chainCtx.types = some t → evalC noMacros σ (.var n t) = .ok vC →
+        WFSimple σ (.var n t) := by
+      intro n t ht hv
+      simp only [evalC] at hv
+      cases hl : lookupS n σ.locals with
+      | none => rw [hl] at hv; simp at hv
+      | some w =>
+        obtain ⟨x, rfl⟩ := hinv.typed n t w ht hl
+        exact ⟨x, hl⟩
+    rcases he with rfl | rfl <;> exact hvar _ _ (by decide) hev
+  have hinv : Inv chainCtx chainState chainState := by
+    refine ⟨StRel.refl _, ⟨?_, ?_, ?_⟩, ?_⟩
+    · intro n t v hn hv
+      rcases lookupS_two hn with ⟨rfl, rfl⟩ | ⟨rfl, rfl⟩ <;>
+        rcases lookupS_two hv with ⟨h, rfl⟩ | ⟨h, rfl⟩ <;> first | exact ⟨_, rfl⟩ | (revert h; decide)
+    · intro l hl; simp [chainCtx] at hl
+    · intro ov hov; simp [chainCtx] at hov
+    · intro n hn
+      cases hl : lookupS n chainState.locals with
+      | none => rfl
+      | some v =>
+        exfalso
+        rcases lookupS_two hl with ⟨rfl, _⟩ | ⟨rfl, _⟩ <;> (revert hn; decide)
+  obtain ⟨σIL', hx, hrel⟩ := H noMacros WFSimple (exprOK_simple _) chainCtx chainEnv rfl (by decide)
+    chainStmt _ st' eff hcomp hWF chainState chainState σC' hinv (ExecC_iff.2 ⟨5, hC⟩)
+  -- the C side ends with b = 3
+  have hbC : lookupS "b" σC'.locals = some (.bv 32 3) := by
+    have : finalLocal "b" (execC noMacros 5 chainStmt chainState) = some (.bv 32 3) := by decide
+    rw [hC] at this; exact this
+  -- the IL side ends with b = 5
+  have hIL : runStmtIL chainStmt 5 chainState = execIL noMacros [] 5 eff chainState := by
+    simp only [runStmtIL, hcomp]
+  obtain ⟨σX, hX⟩ := isOk_elim (x := runStmtIL chainStmt 5 chainState) (by decide)
+  have hbX : lookupS "b" σX.locals = some (.bv 32 5) := by
+    have : finalLocal "b" (runStmtIL chainStmt 5 chainState) = some (.bv 32 5) := by decide
+    rw [hX] at this; exact this
+  rw [hIL] at hX
+  have : σIL' = σX := ExecIL_det hx (ExecIL_iff.2 ⟨5, hX⟩)
+  subst this
+  have := hrel.locals _ _ hbC
+  rw [hbX] at this
+  revert this; decide
+
+end C05
 end Rzil
